@@ -3,7 +3,9 @@ package c09
 
 import (
 	"fmt"
+	"io"
 	"os"
+	"strings"
 	"sync"
 	"testing"
 	"time"
@@ -36,6 +38,10 @@ type Case struct {
 	// raw spelling the sanitizer rewrites ("c-0" -> "c_0"): the get-or-create paths then probe, re-check
 	// and store under the sanitized name
 	San bool `json:"san,omitempty"`
+	// PreClosed: every child scope the threads may ask for has existed before - it recorded once and
+	// was closed - so the concurrent requests are first uses of an identity whose closed predecessor
+	// is (unless a pass got there first) still in the registry
+	PreClosed bool `json:"preClosed,omitempty"`
 }
 
 func genReqs(t *rapid.T, maxOps int) []Req {
@@ -72,6 +78,7 @@ func gen(t *rapid.T) Case {
 		c.Threads = append(c.Threads, reqs)
 	}
 	c.San = rapid.IntRange(0, 2).Draw(t, "san") == 0
+	c.PreClosed = rapid.IntRange(0, 2).Draw(t, "preClosed") == 0
 	c.Recorder = rapid.IntRange(0, 2).Draw(t, "recorders")
 	c.Pass = rapid.IntRange(0, 2).Draw(t, "passes")
 	c.Sched = sgen.Choices(t, 200, nt+c.Recorder+1)
@@ -86,6 +93,7 @@ type world struct {
 	timers   map[string]int
 	hists    map[string]int64
 	dirty    map[string]bool // delivered-ids of children reached through a tag value the sanitizer rewrites
+	preAlloc map[string]bool // delivered-ids of counters that a closed predecessor scope allocated once already
 }
 
 func (w *world) saw(key string, obj interface{}) {
@@ -225,6 +233,9 @@ func judge(errs *pbt.Errs, w *world, events []rec.Event, cached bool) {
 		}
 	}
 	for k, n := range allocs {
+		if w.preAlloc[strings.TrimPrefix(k, rec.KAllocC+"/")] && strings.HasPrefix(k, rec.KAllocC+"/") {
+			n-- // the closed predecessor's allocation
+		}
 		if n > 1 {
 			errs.Addf("%s allocated %d times on the cached reporter", k, n)
 		}
@@ -272,6 +283,31 @@ func run(c Case) (pbt.Outcome, error) {
 	scopes := []tally.Scope{root, root.SubScope("sub")}
 	w := &world{san: c.San, ptrs: map[string]map[interface{}]bool{}, counters: map[string]int64{}, timers: map[string]int{}, hists: map[string]int64{}}
 	pre := root.Counter("pre")
+	if c.PreClosed {
+		w.preAlloc = map[string]bool{}
+		for si, sc := range scopes {
+			for n := 0; n <= 1; n++ {
+				var ch tally.Scope
+				var name string
+				if n == 0 {
+					ch, name = sc.SubScope("k0"), metricName(si, "k0.cc")
+				} else {
+					raw, v := "k1", "k1"
+					if c.San {
+						raw, v = "k-1", "k_1"
+					}
+					ch, name = sc.Tagged(map[string]string{"k": raw}), metricName(si, "cc")+"{k="+v+"}"
+				}
+				ch.Counter("cc").Inc(1)
+				w.counters[name]++
+				w.preAlloc[name] = true
+				if cl, ok := ch.(io.Closer); ok {
+					_ = cl.Close()
+				}
+			}
+		}
+		out.Classes = append(out.Classes, "children-pre-closed")
+	}
 
 	s := sched.New(c.Sched)
 	log.OnCall = s.Yield
@@ -346,7 +382,7 @@ func run(c Case) (pbt.Outcome, error) {
 func TestSched(t *testing.T) {
 	pbt.Main(t, pbt.Prop[Case]{
 		ID: "C09", Name: "sched",
-		Rule: "cooperative-scheduler mode: 2..4 threads perform first-use requests (counter, gauge, timer, histogram, child scope by SubScope or Tagged) over overlapping names on the root and one subscope and record through what they get, 0..2 recorder threads increment a pre-registered counter, 0..2 modelled passes run on a ticker thread; shard count 1/2/4; plain/cached; schedule <=200 choices incl. the yield points between the read-lock probe and the write-lock acquisition of every get-or-create path and at the cached reporter's Allocate call. Oracle: one object per (kind,name,scope) and per child identity across threads, Allocate* at most once per identity, delivered totals == totals recorded through any returned handle, no panic, deadlock decided exactly. Non-trivial: two threads requested the same key and a get-or-create window was preempted. Distinct: FNV-64 of program+schedule JSON.",
+		Rule: "cooperative-scheduler mode: 2..4 threads perform first-use requests (counter, gauge, timer, histogram, child scope by SubScope or Tagged) over overlapping names (in a third of the cases every child scope has existed before, recorded once and was closed) on the root and one subscope and record through what they get, 0..2 recorder threads increment a pre-registered counter, 0..2 modelled passes run on a ticker thread; shard count 1/2/4; plain/cached; schedule <=200 choices incl. the yield points between the read-lock probe and the write-lock acquisition of every get-or-create path and at the cached reporter's Allocate call. Oracle: one object per (kind,name,scope) and per child identity across threads, Allocate* at most once per identity, delivered totals == totals recorded through any returned handle, no panic, deadlock decided exactly. Non-trivial: two threads requested the same key and a get-or-create window was preempted. Distinct: FNV-64 of program+schedule JSON.",
 		Gen:  gen, Run: run, Retries: 20,
 	})
 }
